@@ -96,8 +96,11 @@ func (x *VC) havocAll(st *State) {
 		x.refuse("heap havoc inside specification")
 	}
 	st.ep = x.newEpoch("havoc", st.ep)
-	// keep cells; drop explicit heap versions
+	// keep cells; drop explicit heap versions (immutable fields keep theirs)
 	for k := range st.H {
+		if x.immutableComp(k) {
+			continue
+		}
 		delete(st.H, k)
 	}
 	if x.writeLog != nil {
@@ -183,6 +186,11 @@ func (x *VC) invoke(recv *Val, ifaceT types.Type, m *types.Func, args []*Val, st
 	if r, ok := x.autoPure(m.Pkg(), m.FullName(), sig, st, reach); ok {
 		return r
 	}
+	// error.Error() / fmt.Stringer.String(): message text is irrelevant to every property
+	if (m.Name() == "Error" || m.Name() == "String") && sig.Params().Len() == 0 && sig.Results().Len() == 1 && x.sortOf(sig.Results().At(0).Type()) == "String" {
+		x.externs["assumed-pure: Error()/String() on interface values return an arbitrary string"] = true
+		return []*Val{x.freshOrNamed(sig.Results().At(0).Type(), "msg", reach, st)}
+	}
 	impls := x.eng.implementers(ifaceT)
 	if recv.Alt != nil {
 		impls = recv.Alt
@@ -226,6 +234,10 @@ func (x *VC) invoke(recv *Val, ifaceT types.Type, m *types.Func, args []*Val, st
 	for _, ct := range impls {
 		sel := x.eng.prog.MethodSets.MethodSet(ct).Lookup(m.Pkg(), m.Name())
 		if sel == nil {
+			continue
+		}
+		if viaEmbeddedInterface(sel) {
+			x.externs["assumed: "+shortType(ct)+" is never the dynamic type behind "+shortType(ifaceT)+"."+m.Name()+" (it only delegates to its embedded interface)"] = true
 			continue
 		}
 		fn := x.eng.prog.MethodValue(sel)
